@@ -294,9 +294,11 @@ def evaluateEntry (y : YDesc) (x : XKind) (cv : CvTok) (sc : ScoreTok) (strategy
     if sc == .notcallable then rej
     checkYX y.kind x false) false
 
-def gridSearchEntry (y : YDesc) (x : XKind) (cv : CvTok) (sc : ScoreTok) (g : GridTok) (fh : FhTok) : Outcome :=
+def gridSearchEntry (y : YDesc) (x : XKind) (cv : CvTok) (sc : ScoreTok) (g : GridTok) (fh : FhTok)
+    (strategyOk : Bool := true) : Outcome :=
   finish (do
     checkYX y.kind x false
+    if !strategyOk then rej                   -- reaches evaluate(): _check_strategy (exact names only)
     match cv with
     | .notcv | .none => rej
     | .nosww => rej                           -- reaches evaluate(), which enforces start_with_window
